@@ -189,22 +189,36 @@ _STRING_STARTS = re.compile(r"(?:[A-Za-z]{0,2}['\"])+\Z")
 _STRING_START = re.compile(r"[A-Za-z]{0,2}['\"]")
 
 
-def pending_string_symptom(toks, mismatched, gaps):
+def pending_string_symptom(text, toks, mismatched, gaps):
     """The stream-observable signature of finding F08a (a plain single-quoted string start that is not closed on its line emits no
     token and stays pending; a quote on a later line closes it): every uncovered gap consists of string starts only (optional prefix
     letters and one quote character each), a STRING token emitted later starts exactly where each of them starts and begins with it,
     and these late STRING tokens are the only tokens whose text differs from their source slice. Displaced or mis-sized tokens of any
-    other origin (a wrong end column, a dropped buffer, a token emitted twice) do not have this shape."""
+    other origin (a wrong end column, a dropped buffer, a token emitted twice) do not have this shape.  Input side, read off the
+    source text alone: each such string start is really left open on its physical line (no unescaped closing quote after it) and
+    the line does not end in a backslash continuation (LF or CRLF) - a continued string is legitimate and must yield one token."""
     from peg_parser.tokenize import Token
 
     if not gaps or not mismatched:
         return False
+    lines = readlines(text)
     starts = {}
-    for a, b, text in gaps:
-        if a is None or not _STRING_STARTS.match(text):
+    for a, b, gap in gaps:
+        if a is None or not _STRING_STARTS.match(gap):
             return False
-        for m in _STRING_START.finditer(text):
-            starts[(a[0], a[1] + m.start())] = m.group()
+        for m in _STRING_START.finditer(gap):
+            pos = (a[0], a[1] + m.start())
+            if not (1 <= pos[0] <= len(lines)):
+                return False
+            line = lines[pos[0] - 1]
+            rest = line[pos[1] + len(m.group()):]
+            q = m.group()[-1]
+            body = rest.rstrip("\r\n")
+            closed = re.match(rf"(?:[^{q}\\]|\\.)*{q}", body)
+            continued = line.endswith("\\\n") or line.endswith("\\\r\n")
+            if closed or continued:
+                return False
+            starts[pos] = m.group()
     closed = set()
     for i in mismatched:
         t = toks[i]
